@@ -1,6 +1,7 @@
 //! vh -- conformance harness binding the TLA+ specification in /verif/spec to contentauth/c2pa-rs.
 mod common;
 mod c01;
+mod c02;
 mod c04;
 mod c11;
 mod c13;
@@ -41,6 +42,7 @@ fn main() {
             }
         }
         "c01-record" => c01::record(rest),
+        "c02-record" => c02::record(rest),
         "c04-replay" => c04::replay(rest),
         "c04-observe" => c04::observe(rest),
         "c04-legacy" => c04::legacy(rest),
